@@ -46,6 +46,17 @@ for sid in ids:
     with_input = any("no-failing-input-found" not in l for l in viol)
     res = dict(seed=sid, property=prop, tier=tier, caught=caught, with_concrete_input=with_input, rc=r.returncode,
                violation_lines=viol[:6], wall_s=round(time.time() - t0, 1))
+    try:
+        prev = json.loads((d / "result.json").read_text())
+    except Exception:
+        prev = None
+    hist = (prev or {}).get("history", [])
+    if prev:
+        hist = hist + [dict(caught=prev.get("caught"), with_concrete_input=prev.get("with_concrete_input"),
+                            verif_commit=prev.get("verif_commit"), tier=prev.get("tier"))]
+        if prev.get("note"): res["note"] = prev["note"]
+    res["history"] = hist
+    res["verif_commit"] = subprocess.run(["git", "-C", str(VERIF), "rev-parse", "--short", "HEAD"], capture_output=True, text=True).stdout.strip()
     (d / "result.json").write_text(json.dumps(res, indent=1) + "\n")
     summary.append((sid, prop, "CAUGHT" if caught else "MISSED", res["wall_s"]))
     print(sid, prop, "CAUGHT" if caught else "MISSED", "(concrete input)" if with_input else "", f"{res['wall_s']}s", flush=True)
